@@ -125,7 +125,8 @@ def cmd_check(args):
       if f.startswith(prop + '-'):
         os.unlink(os.path.join(rd, f))
   t0 = time.time()
-  budget = args.budget or (40 if tier == 'quick' else 480)
+  from plans import BUDGET
+  budget = args.budget or BUDGET.get(prop, (40, 480))[0 if tier == 'quick' else 1]
   n_runs = args.runs or PLANS_RUNS(prop, tier)
   jobs = args.jobs
   known = load_known()
